@@ -2,13 +2,13 @@
 Model of Laythe's two value representations (`laythe_core/src/value.rs`).
 
 * `mod boxed` (feature `nan_boxing`): `struct Value(u64)`.  The constants, the type tests, the
-  accessors, `kind` and the constructors are **generated** from the Rust text
-  (`LaytheVerif/Gen/NanBox.lean`); this file adds what is derived (`PartialEq`, `Eq`, `Hash` on the
-  `u64`) and the encode/decode functions between the abstract meaning and the bits.
+  accessors, `kind`, the constructors and the hand-written `PartialEq` / `Hash` impls are
+  **generated** from the Rust text (`LaytheVerif/Gen/NanBox.lean`: `value_eq`, `value_hash`); this
+  file adds the encode/decode functions between the abstract meaning and the bits.
 * `mod unboxed` (default): `enum Value { Bool(bool), Nil, Undefined, Number(f64), Obj(ObjectRef) }`
   with hand-written `PartialEq`/`Hash`; their arms are generated tables, interpreted here.
 * the Spec: the abstract meaning `nil | undefined | bool | num bits | obj ptr`, with IEEE-754
-  equality on numbers stated on bit patterns.
+  equality on numbers stated on bit patterns (`Model/Ieee64.lean`).
 
 Numbers are bit patterns (`BitVec 64`); nothing here depends on a floating point implementation.
 Core Lean only.
@@ -44,30 +44,7 @@ def Abs.kind : Abs → Kind
   | .num _ => .Number
   | .obj _ => .Obj
 
-/-! ## IEEE-754 binary64 predicates on bit patterns -/
-
-def EXP_MASK : BitVec 64 := 0x7ff0000000000000#64
-def MAN_MASK : BitVec 64 := 0x000fffffffffffff#64
-def ABS_MASK : BitVec 64 := 0x7fffffffffffffff#64
-
-/-- exponent all ones, mantissa non-zero -/
-def isNaN (a : BitVec 64) : Bool := (a &&& EXP_MASK) == EXP_MASK && (a &&& MAN_MASK) != 0#64
-/-- `+0` or `-0` -/
-def isZero (a : BitVec 64) : Bool := (a &&& ABS_MASK) == 0#64
-
-/-- IEEE `==` on bit patterns (the Spec of number equality; Rust's `f64 == f64`). -/
-def ieeeEq (a b : BitVec 64) : Bool := !isNaN a && !isNaN b && (a == b || (isZero a && isZero b))
-
-/-- Rust's saturating `f64 as u64` on the bit pattern (used by the enum `Hash`):
-NaN ↦ 0, negative ↦ 0, too large ↦ `u64::MAX`, otherwise truncation. -/
-def f64ToU64 (x : BitVec 64) : Nat :=
-  let e := (x.toNat / 2 ^ 52) % 2048
-  let m := x.toNat % 2 ^ 52
-  if e = 2047 then (if m ≠ 0 then 0 else if x.msb then 0 else 2 ^ 64 - 1)
-  else if x.msb then 0
-  else if e = 0 then 0
-  else if e ≥ 1075 then min ((m + 2 ^ 52) * 2 ^ (e - 1075)) (2 ^ 64 - 1)
-  else (m + 2 ^ 52) / 2 ^ (1075 - e)
+-- IEEE-754 `==` (`ieeeEq`, `isNaN`, `isZero`) and the cast `f64ToU64` live in `Model/Ieee64.lean`.
 
 /-! ## The Spec: equality of abstract values -/
 
@@ -130,31 +107,19 @@ def evalEqArms : List (Option Variant × Option Variant × EqRhs) → Abs → Ab
 /-- `unboxed::Value::eq` as the code has it (generated arms). -/
 def enumEq (a b : Abs) : Bool := evalEqArms enumEqArms a b
 
-/-- the arms at the pinned commit (no `(Undefined, Undefined)` arm: defect D9) -/
-def pinnedEqArms : List (Option Variant × Option Variant × EqRhs) := [
-  (some .Number, some .Number, .payload), (some .Bool, some .Bool, .payload),
-  (some .Nil, some .Nil, .tt), (some .Obj, some .Obj, .payload), (none, none, .ff)]
-
-/-- the arms after the planned one-arm repair of D9 (either position before the wildcard) -/
-def repairedEqArms : List (Option Variant × Option Variant × EqRhs) := [
+/-- the arms `impl PartialEq for Value` (enum) has: one arm per variant, then the wildcard.  (The
+`(Undefined, Undefined)` arm was missing at the pinned commit — defect D9, repaired in 713247d.) -/
+def eqArms : List (Option Variant × Option Variant × EqRhs) := [
   (some .Number, some .Number, .payload), (some .Bool, some .Bool, .payload),
   (some .Nil, some .Nil, .tt), (some .Undefined, some .Undefined, .tt),
   (some .Obj, some .Obj, .payload), (none, none, .ff)]
-
-def repairedEqArms' : List (Option Variant × Option Variant × EqRhs) := [
-  (some .Number, some .Number, .payload), (some .Bool, some .Bool, .payload),
-  (some .Nil, some .Nil, .tt), (some .Obj, some .Obj, .payload),
-  (some .Undefined, some .Undefined, .tt), (none, none, .ff)]
-
-/-- Does the enum build have defect D9 (per the generated table)? Printed by the driver. -/
-def d9Present : Bool := !enumEq .undefined .undefined
 
 /-- One call on the `Hasher`: which `write_*` method and the value written. -/
 abbrev HashKey := List (String × Nat)
 
 def payloadHash : Abs → HashKey
   | .bool b => [("u8", b.toNat)]          -- `bool::hash` → `write_u8`
-  | .num x => [("u64", x.toNat)]          -- not used by the pinned code (`f64` is not `Hash`)
+  | .num x => [("u64", x.toNat)]          -- not used by the code (`f64` is not `Hash`)
   | .obj p => [("usize", p.toNat)]        -- `NonNull<u8>::hash` → `write_usize(addr)`
   | _ => []
 
@@ -175,11 +140,14 @@ def enumHash (a : Abs) : HashKey := enumHashOf enumHashArms a
 
 /-! ## The NaN-boxed representation (`mod boxed`) -/
 
-/-- derived `PartialEq` on `struct Value(u64)`: bitwise -/
-def boxedEq (x y : BitVec 64) : Bool := x == y
+/-- `impl PartialEq for Value` of `mod boxed` (generated `value_eq`): two numbers compare as `f64`,
+everything else by its bits -/
+def boxedEq (x y : BitVec 64) : Bool := value_eq x y
 
-/-- derived `Hash` on `struct Value(u64)`: `write_u64(bits)` -/
-def boxedHash (x : BitVec 64) : HashKey := [("u64", x.toNat)]
+/-- `impl Hash for Value` of `mod boxed` (generated `value_hash`): the sequence of writes fed to the
+hasher — a number like the enum representation (`ValueKind::Number`, then `num as u64`), any other
+value its word -/
+def boxedHash (x : BitVec 64) : HashKey := value_hash x
 
 /-- the constructors (`From<Nil>`, `From<bool>`, `From<f64>`, `From<object handle>`, `VALUE_UNDEFINED`) -/
 def encode : Abs → BitVec 64
@@ -218,21 +186,5 @@ def proper (v : BitVec 64) : Bool :=
 /-- the NaNs IEEE arithmetic and parsing produce on the supported targets: quiet, payload 0
 (`f64::NAN` = 0x7ff8…, and the x86 "real indefinite" 0xfff8… that `0/0` yields) -/
 def arithNaN (x : BitVec 64) : Bool := x == 0x7ff8000000000000#64 || x == 0xfff8000000000000#64
-
-/-- D8's signature: two numbers on which bitwise equality and IEEE equality differ — zeros of
-different sign, or twice the same NaN pattern -/
-def numEqExcluded (a b : Abs) : Bool :=
-  match a, b with
-  | .num x, .num y => (isZero x && isZero y && x != y) || (isNaN x && x == y)
-  | _, _ => false
-
-/-- D9's signature: the `Undefined` sentinel compared with itself -/
-def undefPair (a b : Abs) : Bool :=
-  match a, b with
-  | .undefined, .undefined => true
-  | _, _ => false
-
-/-- the pairs excluded from `C14_eq_agree_partial` -/
-def eqExcluded (a b : Abs) : Bool := numEqExcluded a b || undefPair a b
 
 end LaytheVerif.NanBox
